@@ -150,6 +150,8 @@ fn link_inputs(repo: &str) -> Vec<LinkIn> {
         l("empty-pd", "[]", Valid, true, true),
         l("file-path", &format!("{repo}/yui-link/resources/links/4_1.json"), Valid, false, false),
         l("6_1", "6_1", Valid, false, false),
+        // 10_120 has a cell of rank exactly 10 over Q (two-digit superscripts in the printed table)
+        l("10_120", "10_120", Valid, false, true),
         l("8_19", "8_19", Valid, false, false),
         l("unpaired-pd", "[[1,2,3,4]]", Dubious, false, false),
     ]
